@@ -69,7 +69,10 @@ class Profiles:
         'escape': r'{unicode}|\\[ -~\u0080-\u01ff]',
         #   'escape': r'{unicode}|\\[ -~\200-\4177777]',
         'int': r'[-]?\d+',
-        'nmchar': r'[\w-]|{nonascii}|{escape}',
+        # [\w-] would also match non-ASCII letters, which {nonascii} matches
+        # as well: two ways to match every such character make a failing match
+        # on a run of them take exponential time
+        'nmchar': r'[_a-z0-9-]|{nonascii}|{escape}',
         'num': r'[-]?\d+|[-]?\d*\.\d+',
         'positivenum': r'\d+|\d*\.\d+',
         'number': r'{num}',
